@@ -18,7 +18,7 @@ from __future__ import annotations
 import ast
 import copy
 
-from .loader import ClassInfo, FuncInfo, Program, dotted, norm, walk_no_nested
+from .loader import record_fields, ClassInfo, FuncInfo, Program, dotted, norm, walk_no_nested
 
 MAX_HELPER_STMTS = 60
 
@@ -57,6 +57,8 @@ def resolve_callee(prog: Program, fi: FuncInfo, call: ast.Call, cls: ClassInfo |
                 m = prog.lookup_method(c, f.attr)
                 if m is not None and m.kind == "static":
                     return m, None
+                if m is not None and m.kind == "class":
+                    return m, base
                 return None
             mod = prog.modules.get(r)
             if mod is not None and f.attr in mod.functions:
@@ -69,6 +71,66 @@ def resolve_callee(prog: Program, fi: FuncInfo, call: ast.Call, cls: ClassInfo |
         if mod is not None and fn in mod.functions:
             return mod.functions[fn], None
     return None
+
+
+def _apply_module_partial(prog: Program, fi: FuncInfo, call: ast.Call) -> ast.Call:
+    """`_stack = functools.partial(np.hstack, dtype=np.int_)` at module level and `_stack(x)` in a function:
+    the call is `np.hstack(x, dtype=np.int_)` (positional arguments of the partial first, keywords merged)."""
+    if not isinstance(call.func, ast.Name):
+        return call
+    v = fi.module.assigns.get(call.func.id) if getattr(fi.module, "assigns", None) else None
+    if not (isinstance(v, ast.Call) and norm(v.func) in ("functools.partial", "partial") and v.args):
+        return call
+    if any(isinstance(n, ast.Name) and isinstance(n.ctx, ast.Store) and n.id == call.func.id for n in ast.walk(fi.node)):
+        return call  # shadowed by a local
+    kws = {k.arg: k for k in v.keywords if k.arg}
+    for k in call.keywords:
+        if k.arg:
+            kws[k.arg] = k
+    new = ast.Call(func=copy.deepcopy(v.args[0]), args=[copy.deepcopy(a) for a in v.args[1:]] + list(call.args), keywords=[copy.deepcopy(k) for k in kws.values()])
+    return ast.copy_location(new, call)
+
+
+def _hoist_walrus(st: ast.stmt) -> list[ast.stmt]:
+    """`if (x := e) is not None:` / `y = f(x := e)` → `x = e` in front of the statement, the statement reading `x`.
+    Only assignment expressions that are evaluated unconditionally (not inside the later operands of and/or, the
+    branches of a conditional expression, a comprehension or a lambda) are moved; the statement is changed in place."""
+    fields = ["test"] if isinstance(st, (ast.If, ast.While)) else (["iter"] if isinstance(st, ast.For) else ["value", "test", "exc"])
+    if isinstance(st, (ast.While, ast.FunctionDef, ast.AsyncFunctionDef, ast.ClassDef, ast.Try, ast.With)):
+        return []
+    out: list[ast.stmt] = []
+
+    class T(ast.NodeTransformer):
+        def visit_Lambda(self, node):
+            return node
+
+        def visit_ListComp(self, node):
+            return node
+
+        visit_GeneratorExp = visit_ListComp
+        visit_SetComp = visit_ListComp
+        visit_DictComp = visit_ListComp
+
+        def visit_IfExp(self, node):
+            node.test = self.visit(node.test)
+            return node
+
+        def visit_BoolOp(self, node):
+            node.values[0] = self.visit(node.values[0])
+            return node
+
+        def visit_NamedExpr(self, node):
+            val = self.visit(node.value)
+            a = ast.Assign(targets=[ast.Name(id=node.target.id, ctx=ast.Store())], value=val, lineno=getattr(node, "lineno", getattr(st, "lineno", 0)), col_offset=0)
+            ast.fix_missing_locations(a)
+            out.append(a)
+            return ast.copy_location(ast.Name(id=node.target.id, ctx=ast.Load()), node)
+
+    for f in fields:
+        v = getattr(st, f, None)
+        if isinstance(v, ast.expr) and any(isinstance(n, ast.NamedExpr) for n in ast.walk(v)):
+            setattr(st, f, T().visit(v))
+    return out
 
 
 def _own_instances(fi: FuncInfo) -> set[str]:
@@ -158,9 +220,11 @@ def eligible(helper: FuncInfo) -> bool:
 
 
 # --------------------------------------------------------------------------- single exit
-def to_single_exit(stmts: list[ast.stmt], retvar: str | None) -> tuple[list[ast.stmt], bool]:
-    """Rewrite a statement list so that ``return e`` becomes ``retvar = e`` with the remaining
-    statements moved into else-branches.  Returns (new statements, always_returns)."""
+def to_single_exit(stmts: list[ast.stmt], retvar: str | None, cont: list[ast.stmt] | None = None) -> tuple[list[ast.stmt], bool]:
+    """Rewrite a statement list so that ``return e`` becomes ``retvar = e`` and nothing after it runs: the statements
+    that follow a conditional return — at the same level AND at every enclosing level (``cont``, the continuation) — are
+    moved into the branches that fall through.  Returns (new statements, always_returns)."""
+    cont = cont or []
     out: list[ast.stmt] = []
     for i, st in enumerate(stmts):
         rest = stmts[i + 1:]
@@ -169,7 +233,7 @@ def to_single_exit(stmts: list[ast.stmt], retvar: str | None) -> tuple[list[ast.
                 val = st.value if st.value is not None else ast.Constant(value=None)
                 out.append(ast.Assign(targets=[ast.Name(id=retvar, ctx=ast.Store())], value=val, lineno=st.lineno, col_offset=0))
             return out, True
-        if _is_tail_try(st, not rest) and any(isinstance(n, ast.Return) for n in walk_no_nested(st)):
+        if _is_tail_try(st, not rest and not cont) and any(isinstance(n, ast.Return) for n in walk_no_nested(st)):
             nb, _r = to_single_exit(st.body, retvar)
             st2 = ast.Try(body=nb or [ast.Pass()], handlers=[], orelse=[], finalbody=[], lineno=st.lineno, col_offset=0)
             always = _r
@@ -180,36 +244,39 @@ def to_single_exit(stmts: list[ast.stmt], retvar: str | None) -> tuple[list[ast.
             out.append(st2)
             return out, always
         if isinstance(st, ast.If) and any(isinstance(n, ast.Return) for n in walk_no_nested(st)):
-            b, b_ret = to_single_exit(st.body, retvar)
-            o, o_ret = to_single_exit(st.orelse, retvar)
+            b_plain, b_ret = to_single_exit(st.body, retvar)
+            o_plain, o_ret = to_single_exit(st.orelse, retvar)
             if b_ret and o_ret:
-                out.append(ast.If(test=st.test, body=b or [ast.Pass()], orelse=o, lineno=st.lineno, col_offset=0))
+                out.append(ast.If(test=st.test, body=b_plain or [ast.Pass()], orelse=o_plain, lineno=st.lineno, col_offset=0))
                 return out, True
-            r, r_ret = to_single_exit(rest, retvar)
-            if b_ret and not o_ret:
-                out.append(ast.If(test=st.test, body=b or [ast.Pass()], orelse=o + r, lineno=st.lineno, col_offset=0))
-                return out, r_ret
-            if o_ret and not b_ret:
-                out.append(ast.If(test=st.test, body=b + r or [ast.Pass()], orelse=o, lineno=st.lineno, col_offset=0))
-                return out, r_ret
-            # returns nested deeper in both without covering: duplicate the continuation
-            out.append(ast.If(test=st.test, body=b + copy.deepcopy(r) or [ast.Pass()], orelse=o + r, lineno=st.lineno, col_offset=0))
-            return out, r_ret
+            # what runs after this statement on a path that falls through it: the rest of this block, then the continuation
+            # of the enclosing blocks — threaded INTO the branches, so that a return nested deeper skips all of it
+            follow = list(rest) + list(cont)
+            b, b_r = (b_plain, True) if b_ret else to_single_exit(st.body, retvar, copy.deepcopy(follow))
+            o, o_r = (o_plain, True) if o_ret else to_single_exit(st.orelse, retvar, copy.deepcopy(follow) if not b_ret else follow)
+            out.append(ast.If(test=st.test, body=b or [ast.Pass()], orelse=o, lineno=st.lineno, col_offset=0))
+            return out, b_r and o_r
         out.append(st)
+    if cont:
+        c, c_ret = to_single_exit(cont, retvar)
+        return out + c, c_ret
     return out, False
 
 
 # --------------------------------------------------------------------------- renaming
 class _Rename(ast.NodeTransformer):
-    def __init__(self, mapping: dict[str, str], self_expr: ast.expr | None):
+    def __init__(self, mapping: dict[str, str], self_expr: ast.expr | None, cls_expr: ast.expr | None = None):
         self.m = mapping
         self.self_expr = self_expr
+        self.cls_expr = cls_expr  # `ClassName.classmethod(…)`: `cls` inside the body is that class
 
     def visit_Name(self, node):
         if node.id in self.m:
             return ast.copy_location(ast.Name(id=self.m[node.id], ctx=node.ctx), node)
         if node.id == "self" and self.self_expr is not None and not (isinstance(self.self_expr, ast.Name) and self.self_expr.id == "self"):
             return copy.deepcopy(self.self_expr)
+        if node.id == "cls" and self.cls_expr is not None:
+            return copy.deepcopy(self.cls_expr)
         return node
 
     def visit_arg(self, node):
@@ -303,6 +370,10 @@ class Flattener:
         fn.body = split_tuple_assignments(fn.body)
         fn.body = propagate_aliases(fn.body)
         fn.body = collapse_temps(fn.body, fn)
+        fn.body = scalar_replace_records(fn.body, self.prog, self.fi)
+        fn.body = split_tuple_assignments(fn.body)
+        fn.body = propagate_aliases(fn.body)
+        fn.body = collapse_temps(fn.body, fn)
         fn = beta_reduce_lambdas(fn)
         fn.body = fold_known_none_tests(fn.body, fn)
         fn.body = propagate_aliases(fn.body)
@@ -350,6 +421,11 @@ class Flattener:
         return out
 
     def _stmt(self, st, stack, depth) -> list[ast.stmt]:
+        if isinstance(st, ast.Assert):
+            return []  # assertions state invariants the author believes; the rules analyse the code as if they hold
+        hoisted = _hoist_walrus(st)
+        if hoisted:
+            return self._block([*hoisted, st], stack, depth)
         if isinstance(st, ast.If):
             low = self._lower_short_circuit(st, stack, depth)
             if low is not None:
@@ -428,6 +504,7 @@ class Flattener:
 
             def visit_Call(self, node):
                 self.generic_visit(node)
+                node = _apply_module_partial(flat.prog, flat.fi, node)
                 r = resolve_callee(flat.prog, flat.fi, node, flat.cls)
                 if r is None:
                     return node
@@ -452,6 +529,8 @@ class Flattener:
         if helper.name.startswith("__"):
             return False
         if helper.cls is not None:
+            if helper.cls.name.startswith("_") or record_fields(self.prog, helper.cls) is not None:
+                return True  # a private class / a plain record (NamedTuple, dataclass) is implementation detail as a whole
             return helper.name.startswith("_") or self.public_methods
         return True
 
@@ -469,7 +548,7 @@ class Flattener:
         retvar = prefix + "ret"
         body = FuncInfo(helper.name, hn, helper.module, helper.cls, helper.kind).body()
         body, _always = to_single_exit(body, retvar)
-        ren = _Rename(mapping, recv)
+        ren = _Rename(mapping, recv if helper.kind != "class" else None, recv if helper.kind == "class" and recv is not None and not (isinstance(recv, ast.Name) and recv.id in ("cls", "self")) else None)
         if splat:
             class _Splat(ast.NodeTransformer):
                 def visit_Call(self, node):
@@ -1037,6 +1116,115 @@ def split_tuple_assignments(stmts: list[ast.stmt]) -> list[ast.stmt]:
                 continue
         out.append(st)
     return out
+
+
+def scalar_replace_records(stmts: list[ast.stmt], prog: Program, fi: FuncInfo) -> list[ast.stmt]:
+    """`r = Record(a, b)` (a NamedTuple / plain dataclass of the package) whose only uses are field reads `r.f`, tuple
+    unpacking `x, y = r` and index reads `r[0]`: replaced by one local per field (`r__f = a`), uses rewritten."""
+    mod = ast.Module(body=stmts, type_ignores=[])
+    counts: dict[str, int] = {}
+    for n in ast.walk(mod):
+        if isinstance(n, ast.Name) and isinstance(n.ctx, ast.Store):
+            counts[n.id] = counts.get(n.id, 0) + 1
+    cands: dict[str, tuple[ast.Assign, list[str], dict[str, ast.expr]]] = {}
+    for n in ast.walk(mod):
+        if isinstance(n, ast.Assign) and len(n.targets) == 1 and isinstance(n.targets[0], ast.Name) and counts.get(n.targets[0].id) == 1 and isinstance(n.value, ast.Call):
+            d = dotted(n.value.func)
+            ci = prog.classes.get(prog.resolve_dotted(fi.module, d)) if d else None
+            rf = record_fields(prog, ci) if ci is not None else None
+            if rf is None or any(isinstance(a, ast.Starred) for a in n.value.args) or any(k.arg is None for k in n.value.keywords):
+                continue
+            names = [x for x, _d in rf]
+            vals: dict[str, ast.expr] = dict(zip(names, n.value.args))
+            ok = len(n.value.args) <= len(names)
+            for k in n.value.keywords:
+                if k.arg not in names or k.arg in vals:
+                    ok = False
+                else:
+                    vals[k.arg] = k.value
+            for x, dflt in rf:
+                if x not in vals:
+                    if dflt is None:
+                        ok = False
+                    else:
+                        vals[x] = dflt
+            if ok:
+                cands[n.targets[0].id] = (n, names, vals)
+    # `x, y, z = Record(a, b, c)`: the record never escapes — element-wise assignment
+    def _record_call(v):
+        if not isinstance(v, ast.Call):
+            return None
+        d = dotted(v.func)
+        ci = prog.classes.get(prog.resolve_dotted(fi.module, d)) if d else None
+        rf = record_fields(prog, ci) if ci is not None else None
+        if rf is None or v.keywords or any(isinstance(a, ast.Starred) for a in v.args) or len(v.args) != len(rf):
+            return None
+        return list(v.args)
+
+    class U(ast.NodeTransformer):
+        def visit_Assign(self, node):
+            if len(node.targets) == 1 and isinstance(node.targets[0], (ast.Tuple, ast.List)) and not any(isinstance(e_, ast.Starred) for e_ in node.targets[0].elts):
+                vals = _record_call(node.value)
+                if vals is not None and len(vals) == len(node.targets[0].elts):
+                    return ast.fix_missing_locations(ast.copy_location(ast.Assign(targets=[node.targets[0]], value=ast.Tuple(elts=vals, ctx=ast.Load()), lineno=node.lineno), node))
+            return node
+
+    mod = U().visit(mod)
+    stmts = mod.body
+    if not cands:
+        return stmts
+    # every use must be a field read, an unpacking, or a constant index
+    parents: dict[int, ast.AST] = {}
+    for p in ast.walk(mod):
+        for ch in ast.iter_child_nodes(p):
+            parents[id(ch)] = p
+    for n in ast.walk(mod):
+        if isinstance(n, ast.Name) and isinstance(n.ctx, ast.Load) and n.id in cands:
+            p = parents.get(id(n))
+            names = cands[n.id][1]
+            fine = (isinstance(p, ast.Attribute) and p.value is n and p.attr in names and isinstance(p.ctx, ast.Load)) \
+                or (isinstance(p, ast.Subscript) and p.value is n and isinstance(p.slice, ast.Constant) and isinstance(p.slice.value, int) and -len(names) <= p.slice.value < len(names) and isinstance(p.ctx, ast.Load)) \
+                or (isinstance(p, ast.Assign) and p.value is n and len(p.targets) == 1 and isinstance(p.targets[0], (ast.Tuple, ast.List)) and len(p.targets[0].elts) == len(names)
+                    and not any(isinstance(e_, ast.Starred) for e_ in p.targets[0].elts))
+            if not fine:
+                del cands[n.id]
+    if not cands:
+        return stmts
+
+    def fname(r, f):
+        return f"{r}__{f}"
+
+    class T(ast.NodeTransformer):
+        def visit_Assign(self, node):
+            if len(node.targets) == 1 and isinstance(node.targets[0], ast.Name) and node.targets[0].id in cands and cands[node.targets[0].id][0] is node:
+                r = node.targets[0].id
+                _n, names, vals = cands[r]
+                out = []
+                for f in names:
+                    a = ast.Assign(targets=[ast.Name(id=fname(r, f), ctx=ast.Store())], value=self.visit(vals[f]), lineno=node.lineno, col_offset=0)
+                    out.append(ast.fix_missing_locations(a))
+                return out
+            if isinstance(node.value, ast.Name) and node.value.id in cands and isinstance(node.targets[0], (ast.Tuple, ast.List)):
+                r = node.value.id
+                out = []
+                for t, f in zip(node.targets[0].elts, cands[r][1]):
+                    a = ast.Assign(targets=[t], value=ast.Name(id=fname(r, f), ctx=ast.Load()), lineno=node.lineno, col_offset=0)
+                    out.append(ast.fix_missing_locations(a))
+                return out
+            return self.generic_visit(node)
+
+        def visit_Attribute(self, node):
+            if isinstance(node.value, ast.Name) and node.value.id in cands and node.attr in cands[node.value.id][1]:
+                return ast.copy_location(ast.Name(id=fname(node.value.id, node.attr), ctx=ast.Load()), node)
+            return self.generic_visit(node)
+
+        def visit_Subscript(self, node):
+            if isinstance(node.value, ast.Name) and node.value.id in cands and isinstance(node.slice, ast.Constant) and isinstance(node.slice.value, int):
+                names = cands[node.value.id][1]
+                return ast.copy_location(ast.Name(id=fname(node.value.id, names[node.slice.value]), ctx=ast.Load()), node)
+            return self.generic_visit(node)
+
+    return T().visit(mod).body
 
 
 def collapse_temps(stmts: list[ast.stmt], scope: ast.AST) -> list[ast.stmt]:
